@@ -330,7 +330,9 @@ def run_case(case, ctx):
             want = R.quantize(v, s, w, nf, r, o)[0]
             got = int(np.asarray(x2.val, dtype=object)[1 if jj % 2 == 0 else 0][jj])
             if got != want:
-                ctx.violation('relation', '%s %s/%s: x[i][j] = %s stored code %d in x, the %s contract gives %d' % (R.dtype_fxp(s, w, nf), r, o, float(v), got, r, want), key='relation.through_view')
+                # (the known finding - an input that is scaled to +-0 in double arithmetic - shows on this route like on every other: same classifier)
+                ctx.violation('relation', '%s %s/%s: x[i][j] = %s stored code %d in x, the %s contract gives %d' % (R.dtype_fxp(s, w, nf), r, o, float(v), got, r, want),
+                              key=UNDERFLOW_KEY if (got == 0 and underflows_to_zero(v, nf)) else 'relation.through_view')
             ctx.judged(('through-view', r, o), True, None)
             ctx.floor_hit(('contract-through-view',))
         up = rng.randint(1, 4)
